@@ -1,2 +1,200 @@
-(* C07 — placeholder *)
-From HC Require Import Base.
+(* C07 — a torn final write is tolerated like a clean crash (pinned statements, generated from the types Coq
+   reports for the lemmas of Crash.v and OplogFacts.v).
+   Proved at the level of the oplog file content and Oplog::open: a log ENTRY torn at any byte is ignored and cut
+   off by open — with no checksum argument at all (the length field says more bytes than are there); a HEADER
+   write torn at any byte t reopens to the state before, or to the state after (when the whole frame arrived and
+   only padding is missing), or two different byte strings with the same CRC-32 are exhibited (the honest escape
+   clause of a 32-bit checksum; for t >= 8 they have equal length); the same for both slot writes of
+   make_read_only; a torn creation reopens as empty storage. A torn write followed by the rest of the write is
+   the whole write (tear_prefix), so recovery composes with a retry.
+   Side condition, stated in the theorems: a tear inside the 4-byte CRC field (t <= 4) of a slot that was ALREADY
+   invalid needs that slot to be `slot_dead` (true of the zero-filled slot of a fresh log, proved); for an
+   arbitrary invalid slot a coincidence of one CRC byte can resurrect a third header — Crash.v contains the
+   counterexample (torn_crc_field_counterexample). This needs two torn crashes in a row and is recorded in
+   DESIGN 12.5.
+   Partial: torn writes to the tree / bitfield / data stores are not in these theorems (a torn page or node is
+   re-derived by replay: C08_replay_exact, DESIGN 5.1); tools/c07.py tears every write of every generated
+   history at every byte (<= 64 bytes) or at framing/sector boundaries and random cuts, on crate and model. *)
+From HC Require Import Base NMap Codec CodecFacts Crypto Storage Bitfield Oplog OplogFacts StorageFacts Crash.
+
+Theorem C07_torn_entry_is_no_frame :
+  forall (cr : crypto) (bit partial : bool) (payload fr : bytes) (t : nat),
+         frame cr bit partial payload = Ok fr ->
+         (t < Datatypes.length fr)%nat -> validate_leader cr (firstn t fr) = None.
+Proof. exact validate_torn_entry_strong. Qed.
+
+Theorem C07_torn_append_recovers_before :
+  forall cr : crypto,
+         crc_ok cr ->
+         forall (s0 s1 body : bytes) (st0 st1 : slot_state) (bits : bool * bool) (hc : header) 
+           (l : list entry) (e : entry) (o' : oplog) (ops : list sop),
+         good cr s0 s1 body st0 st1 bits hc l ->
+         entry_ok e = true ->
+         oplog_append cr (oo_oplog (stable_result bits hc l)) e = Ok (o', ops) ->
+         let c := s0 ++ s1 ++ body in
+         exists fr : bytes,
+           ops = [SW Oplog (len c) fr] /\
+           oplog_open cr None c = Ok (stable_result bits hc l) /\
+           c_write c (len c) fr = s0 ++ s1 ++ body ++ fr /\
+           good cr s0 s1 (body ++ fr) st0 st1 bits hc (l ++ [e]) /\
+           oplog_open cr None (c_write c (len c) fr) = Ok (stable_result bits hc (l ++ [e])) /\
+           o' = oo_oplog (stable_result bits hc (l ++ [e])) /\
+           (forall t : nat,
+            (t < Datatypes.length fr)%nat ->
+            oplog_open cr None (c_write c (len c) (firstn t fr)) =
+            Ok
+              {|
+                oo_oplog := oo_oplog (stable_result bits hc l);
+                oo_header := hc;
+                oo_ops := if 0 <? N.of_nat t then [ST Oplog (len c)] else [];
+                oo_entries := l
+              |} /\ c_truncate (c_write c (len c) (firstn t fr)) (len c) = c).
+Proof. exact append_crash. Qed.
+
+Theorem C07_torn_flush_before_after_or_collision :
+  forall cr : crypto,
+         crc_ok cr ->
+         forall (s0 s1 body : bytes) (st0 st1 : slot_state) (bits : bool * bool) (hc : header) 
+           (l : list entry) (hn : header) (o o' : oplog) (slot : N) (buf : bytes) (tr : sop) 
+           (t : nat),
+         good cr s0 s1 body st0 st1 bits hc l ->
+         header_ok hn = true ->
+         hdr_fits false hn ->
+         ol_bits o = bits ->
+         oplog_flush cr o hn false = Ok (o', [SW Oplog slot buf; tr]) ->
+         (t <= Datatypes.length buf)%nat ->
+         ((t <= 4)%nat ->
+          (if slot =? 0 then st0 else st1) = SInvalid -> slot_dead cr (if slot =? 0 then s0 else s1)) ->
+         forall c' : bytes,
+         c_apply (s0 ++ s1 ++ body) (tear (SW Oplog slot buf) t) = Some c' ->
+         oplog_open cr None c' = Ok (stable_result bits hc l) \/
+         oplog_open cr None c' =
+         Ok
+           {|
+             oo_oplog := o';
+             oo_header := hn;
+             oo_ops := if 0 <? len body then [ST Oplog ENTRIES_OFFSET] else [];
+             oo_entries := []
+           |} \/ collision cr t.
+Proof. exact flush_torn. Qed.
+
+Theorem C07_torn_header_invalid_falls_back :
+  forall cr : crypto,
+         crc_ok cr ->
+         forall (s0 s1 body : bytes) (st0 st1 : slot_state) (bits : bool * bool) (hc : header) 
+           (l : list entry) (hn : header) (eb : N) (ct : bool) (bits' : bool * bool) 
+           (slot : N) (buf : bytes) (tr : sop) (t : nat),
+         good cr s0 s1 body st0 st1 bits hc l ->
+         hdr_fits ct hn ->
+         insert_header cr hn eb bits ct = Ok (bits', [SW Oplog slot buf; tr]) ->
+         (t <= Datatypes.length buf)%nat ->
+         validate_leader cr (overlay (firstn t buf) (if slot =? 0 then s0 else s1)) = None ->
+         forall c' : bytes,
+         c_apply (s0 ++ s1 ++ body) (tear (SW Oplog slot buf) t) = Some c' ->
+         oplog_open cr None c' = Ok (stable_result bits hc l).
+Proof. exact header_write_torn_invalid. Qed.
+
+Theorem C07_torn_header_in_padding_is_after :
+  forall cr : crypto,
+         crc_ok cr ->
+         forall (s0 s1 body : bytes) (st0 st1 : slot_state) (bits : bool * bool) (hc : header) 
+           (l : list entry) (hn : header) (eb : N) (ct : bool) (bits' : bool * bool) 
+           (slot : N) (buf : bytes) (tr : sop) (t : nat) (fr : bytes),
+         good cr s0 s1 body st0 st1 bits hc l ->
+         header_ok hn = true ->
+         hdr_fits ct hn ->
+         insert_header cr hn eb bits ct = Ok (bits', [SW Oplog slot buf; tr]) ->
+         frame cr (w_bit bits) false (enc_header hn) = Ok fr ->
+         (Datatypes.length fr <= t)%nat ->
+         (t <= Datatypes.length buf)%nat ->
+         forall c' : bytes,
+         c_apply (s0 ++ s1 ++ body) (tear (SW Oplog slot buf) t) = Some c' ->
+         oplog_open cr None c' =
+         Ok
+           {|
+             oo_oplog := {| ol_bits := bits'; ol_entries_len := 0; ol_entries_bytes := 0 |};
+             oo_header := hn;
+             oo_ops := if 0 <? len body then [ST Oplog ENTRIES_OFFSET] else [];
+             oo_entries := []
+           |}.
+Proof. exact header_write_torn_in_padding. Qed.
+
+Theorem C07_torn_make_read_only :
+  forall cr : crypto,
+         crc_ok cr ->
+         forall (s0 s1 body : bytes) (st0 st1 : slot_state) (bits : bool * bool) (hc : header) 
+           (l : list entry) (hn : header) (o o' : oplog) (sl1 : N) (buf1 : bytes) (tr1 : sop) 
+           (sl2 : N) (buf2 : bytes) (tr2 : sop),
+         good cr s0 s1 body st0 st1 bits hc l ->
+         header_ok hn = true ->
+         ol_bits o = bits ->
+         oplog_flush cr o hn true = Ok (o', [SW Oplog sl1 buf1; tr1; SW Oplog sl2 buf2; tr2]) ->
+         (forall (t : nat) (c' : bytes),
+          (t <= Datatypes.length buf1)%nat ->
+          ((t <= 4)%nat ->
+           (if sl1 =? 0 then st0 else st1) = SInvalid -> slot_dead cr (if sl1 =? 0 then s0 else s1)) ->
+          c_apply (s0 ++ s1 ++ body) (tear (SW Oplog sl1 buf1) t) = Some c' ->
+          oplog_open cr None c' = Ok (stable_result bits hc l) \/
+          (exists bits1 : bool * bool,
+             oplog_open cr None c' =
+             Ok
+               {|
+                 oo_oplog := {| ol_bits := bits1; ol_entries_len := 0; ol_entries_bytes := 0 |};
+                 oo_header := hn;
+                 oo_ops := if 0 <? len body then [ST Oplog ENTRIES_OFFSET] else [];
+                 oo_entries := []
+               |}) \/ collision cr t) /\
+         (forall (c2 : bytes) (t : nat) (c' : bytes),
+          c_apply_all (s0 ++ s1 ++ body) [SW Oplog sl1 buf1; tr1] = Some c2 ->
+          (t <= Datatypes.length buf2)%nat ->
+          c_apply c2 (tear (SW Oplog sl2 buf2) t) = Some c' ->
+          (exists bits2 : bool * bool, oplog_open cr None c' = Ok (stable_result bits2 hn [])) \/
+          collision cr t).
+Proof. exact read_only_torn. Qed.
+
+Theorem C07_torn_creation_is_empty :
+  forall cr : crypto,
+         crc_ok cr ->
+         forall kp : keypair,
+         keypair_ok kp = true ->
+         exists (buf : bytes) (s0 : list N),
+           oplog_fresh cr kp =
+           Ok
+             ({| ol_bits := (false, false); ol_entries_len := 0; ol_entries_bytes := 0 |}, 
+              header_new kp, [SW Oplog 0 buf; ST Oplog (ENTRIES_OFFSET + 0)]) /\
+           (forall t : nat, oplog_open cr None (c_write [] 0 (firstn t buf)) = Err EmptyStorage) /\
+           oplog_open cr None (c_write [] 0 buf) = Err EmptyStorage /\
+           c_apply_all [] [SW Oplog 0 buf; ST Oplog (ENTRIES_OFFSET + 0)] = Some (s0 ++ zeros SLOT ++ []) /\
+           good cr s0 (zeros SLOT) [] (SValid (header_new kp) false) SInvalid (false, false) (header_new kp) [] /\
+           slot_dead cr (zeros SLOT) /\
+           oplog_open cr None (s0 ++ zeros SLOT ++ []) = Ok (stable_result (false, false) (header_new kp) []).
+Proof. exact oplog_fresh_then_open. Qed.
+
+Theorem C07_torn_then_rest_is_whole_write :
+  forall (d : disk) (s : store) (off : N) (data : list N) (t : nat),
+         (t <= Datatypes.length data)%nat ->
+         exists d1 d2 d3 : disk,
+           apply_sop d (tear (SW s off data) t) = Some d1 /\
+           apply_sop d1 (SW s (off + N.of_nat t) (skipn t data)) = Some d2 /\
+           apply_sop d (SW s off data) = Some d3 /\ deq d2 d3.
+Proof. exact tear_prefix. Qed.
+
+Theorem C07_invalid_slot_keeps_current :
+  forall bits : bool * bool,
+         reachable bits ->
+         let
+         '(slot, _, _) := next_slot bits in
+          torn_bits bits = bits /\
+          current_bit (torn_bits bits) = current_bit bits /\
+          (eqb (fst (torn_bits bits)) (snd (torn_bits bits)) = true <-> slot = HEADER_SIZE).
+Proof. exact invalid_other_slot. Qed.
+
+Print Assumptions C07_torn_entry_is_no_frame.
+Print Assumptions C07_torn_append_recovers_before.
+Print Assumptions C07_torn_flush_before_after_or_collision.
+Print Assumptions C07_torn_header_invalid_falls_back.
+Print Assumptions C07_torn_header_in_padding_is_after.
+Print Assumptions C07_torn_make_read_only.
+Print Assumptions C07_torn_creation_is_empty.
+Print Assumptions C07_torn_then_rest_is_whole_write.
+Print Assumptions C07_invalid_slot_keeps_current.
